@@ -167,6 +167,12 @@ def gen_items(tier, seed, lfactor=3):
                     exp = psum(exp, ld[ci * n:(ci + 1) * n], enc)
                 exp = psum(exp, ld[nc * n:], enc)
                 exp = psum(exp, ld[:nc * n], enc)
+                if tk != "unit" and n > 0:
+                    # where the parts lie inside the source (also when they are empty): the const evaluator only accepts offset_from
+                    # between pointers into the same allocation
+                    body += (f"\n    h = mix(h, unsafe {{ r.as_ptr().offset_from(s.as_ptr()) }} as u64);\n    h = mix(h, unsafe {{ (c.as_ptr() as *const {ty}).offset_from(s.as_ptr()) }} as u64);"
+                             f"\n    h = mix(h, unsafe {{ flat.as_ptr().offset_from(s.as_ptr()) }} as u64);")
+                    exp = mix(mix(mix(exp, nc * n), 0), 0)
                 items.append(Item(name, "chunks_from_slice", {"T": tk, "N": n, "L": l}, body, exp, decls=f"const D_{name}: [{ty}; {l}] = {lit_array(tk, ld)};"))
                 # mutable: write through the last chunk, the remainder and the flattened view
                 name = nm()
@@ -247,6 +253,15 @@ def gen_items(tier, seed, lfactor=3):
             name = nm()
             items.append(Item(name, "arr_repeat_type_expression", {"T": tk, "N": n, "type": texpr},
                               f"    let a: GenericArray<{ty}, {texpr}> = arr![{lit(x)}; {texpr}];\n    sum!(h, a.as_slice(), {vf});", psum(7, [x] * n, enc)))
+    # very long arrays in const position: the expansion must not cost the const evaluator a step per element (only three
+    # elements are read here for the same reason)
+    for tk, n, nty in [("u8", 1 << 20, "U1048576"), ("unit", 1 << 20, "U1048576"), ("u32", 1 << 19, "U524288"), ("pair", 1 << 19, "Prod<U1024, U512>")]:
+        ty, vf, draw, lit, enc = TYPES[tk]
+        x = draw(rng)
+        name = nm()
+        items.append(Item(name, "arr_repeat_type_huge", {"T": tk, "N": n},
+                          f"    let a: GenericArray<{ty}, {nty}> = arr![{lit(x)}; {nty}];\n    let s = a.as_slice();\n    h = mix(h, s.len() as u64);\n    h = mix(h, {vf}(&s[0]));\n    h = mix(h, {vf}(&s[{n // 2}]));\n    h = mix(h, {vf}(&s[{n - 1}]));",
+                          mix(mix(mix(mix(7, n), enc(x)), enc(x)), enc(x))))
     # macro hygiene in const position: element expressions that mention the caller's own items (macro_rules! hygiene does not
     # cover items, so a helper item of the same name inside the expansion would capture them)
     cnames = ["LEN", "N", "LENGTH", "INPUT_LENGTH", "SIZE", "COUNT", "CAP", "USIZE", "ARR", "ARRAY", "INPUT", "VALUE", "INIT", "ITEM"] + [chr(c) for c in range(ord("A"), ord("Z") + 1) if chr(c) not in "NDV"]
@@ -294,7 +309,7 @@ def program(items):
         line += n + 0
         # "\n".join adds one newline between parts
         line += 1
-    out.append("fn main() {\n    let mut bad = 0u32;")
+    out.append("fn main() { std::thread::Builder::new().stack_size(1 << 30).spawn(real_main).unwrap().join().unwrap(); }\nfn real_main() {\n    let mut bad = 0u32;")
     for it in items:
         out.append(f"    if {it.name}() != V_{it.name} {{ println!(\"FAIL {it.name} run time {{}} != const {{}}\", {it.name}(), V_{it.name}); bad += 1; }}")
     out.append('    println!("DONE bad={}", bad);\n}')
@@ -324,11 +339,20 @@ def run(root, pid, tier, seed, only=None, lfactor=3, rule=None):
             exe = os.path.join(wd, f"const{tag}_{ci}")
             text, spans = program(chunks[ci])
             open(src, "w").write(text)
-            rc, err = lib.rustc(src, exe)
+            # lints capped at "warn", not silenced: the deny-by-default lint long_running_const_eval (an expansion that costs the
+            # const evaluator a step per element of a very long array) must stay visible
+            rc, err = lib.rustc(src, exe, cap="warn")
             if rc != 0:
                 return ("compile", ci, err, spans)
+            slow = []
+            for m in re.finditer(r"constant evaluation is taking a long time", err):
+                # the diagnostic points into the crate; the item is named by the frames / the constant that follow
+                block = err[m.end():m.end() + 4000].split("\nwarning", 1)[0]
+                for mm in re.finditer(r"const%s_%d\.rs:(\d+):" % (tag, ci), block):
+                    ln = int(mm.group(1))
+                    slow += [it.name for (a, b, it) in spans if a <= ln <= b and it.name not in slow]
             rc, out, err2 = E.run_exe(exe)
-            return ("run", ci, rc, out, err2)
+            return ("run", ci, rc, out, err2, slow)
 
         def do_reject(r):
             name, body = r
@@ -356,7 +380,9 @@ def run(root, pid, tier, seed, only=None, lfactor=3, rule=None):
                     print(f"INFRA: const program {ci} does not compile and the error could not be attributed to an item")
                     return None
             else:
-                _, ci, rc, out, err2 = r
+                _, ci, rc, out, err2, slow = r
+                for name in slow:
+                    bad_items.setdefault(name, "the const evaluator reports 'constant evaluation is taking a long time' (lint long_running_const_eval, an error by default)")
                 if "DONE bad=" not in out:
                     print(out[-1500:], err2[-1500:])
                     print(f"INFRA: const program {ci} did not finish (rc={rc})")
@@ -396,11 +422,11 @@ def replay(root, pid, path):
     text = open(path).read()
     lib = E.Lib(root, E.RELEASE_FULL if text.startswith("// configuration: release_full") else None)
     exe = os.path.join(E.workdir(root, pid), "replay_exe")
-    rc, err = lib.rustc(path, exe)
+    rc, err = lib.rustc(path, exe, cap="warn")
     if "// expect: reject" in text:
         ok = rc != 0 and "E0080" in E.error_codes(err)
     else:
-        ok = rc == 0
+        ok = rc == 0 and "constant evaluation is taking a long time" not in err
         if ok:
             rc2, out, _ = E.run_exe(exe)
             print(out)
